@@ -1,9 +1,9 @@
 """C03 - placements honour partition, traits, server state, lease."""
 from mc.props import _cellprop
-from mc.worlds import cellcfg, cellmon
+from mc.props import _masterprop
+from mc.worlds import cellcfg, cellmon, mastercfg
 
-BUDGET = {'quick': 60, 'thorough': 600}
-HASH_INSENSITIVE = True
+BUDGET = {'quick': 240, 'thorough': 900}
 DAY = 24 * 3600
 
 
@@ -37,10 +37,30 @@ def _k5():
     return cfg
 
 
+def _m2():
+    """World B: re-assignment / label / trait changes through the real
+    allocations and servers events (Loader.reload_server, load_allocations)."""
+    cfg = mastercfg.m2()
+    cfg['cellmonitors'] = [cellmon.mon_c03]
+    cfg['events'] = mastercfg.ev(
+        ('app+', 'pl'), ('app+', 't1'), ('app+', 'tx'), ('app+', 'hi'),
+        ('app-', 0),
+        ('alloc', 1), ('alloc', 2), ('alloc', 0),
+        ('srv', 's0', 1), ('srv', 's0', 2), ('srv', 's0', 0),
+        ('srv', 's1', 1), ('srv', 's1', 0),
+        ('pres-', 's0'), ('pres+', 's0', 1), ('pres+', 's0', 0),
+        ('state', 's1', 'frozen', -1), ('state', 's1', 'up', -1),
+        ('noop',), ('restart',),
+    )
+    return cfg
+
+
 def configs(ctx):
     if ctx.quick:
-        return [('K2', _k2(), 4, 1), ('K5', _k5(), 5, 0)]
-    return [('K2', _k2(), 6, 1), ('K5', _k5(), 7, 0)]
+        return [('K2', _k2(), 4, 1), ('K5', _k5(), 5, 0),
+                ('M2', _m2(), 3, 0, _masterprop.MasterSpec)]
+    return [('K2', _k2(), 6, 1), ('K5', _k5(), 7, 0),
+            ('M2', _m2(), 5, 1, _masterprop.MasterSpec)]
 
 
 RULE = ('BFS over histories with re-assignment to another partition, label/'
